@@ -52,7 +52,10 @@ class RydbergHamiltonian:
 
         self.diag: torch.Tensor = self._create_diagonal()
         self.inds = torch.tensor([1, 0], device=self.device)  # flips the state, for σˣ
-        self.complex = self.phis.any()
+        # a zero phase still has a nonzero derivative: keep it when autograd records H
+        self.complex = self.phis.any() or (
+            torch.is_grad_enabled() and self.phis.requires_grad
+        )
 
     def __mul__(self, vec: torch.Tensor) -> torch.Tensor:
         """
@@ -78,6 +81,17 @@ class RydbergHamiltonian:
             self._apply_sigma_operators_real(result, vec)
         return result
 
+    @staticmethod
+    def _tracks_gradients(vec: torch.Tensor, coefficient: torch.Tensor) -> bool:
+        """
+        Whether H*|ψ❭ is being recorded by autograd (energy observables in a differentiated
+        run). `index_add_` takes `alpha` as a plain number: it can not carry the gradient
+        of the drive, and its derivative misses the conjugate of a complex `alpha`.
+        """
+        return torch.is_grad_enabled() and (
+            vec.requires_grad or coefficient.requires_grad
+        )
+
     def _apply_sigma_operators_real(
         self, result: torch.Tensor, vec: torch.Tensor
     ) -> None:
@@ -95,7 +109,10 @@ class RydbergHamiltonian:
             shape_n = (2**n, 2, 2 ** (self.nqubits - n - 1))
             vec = vec.view(shape_n)
             result = result.view(shape_n)
-            result.index_add_(dim_to_act, self.inds, vec, alpha=omega_n)
+            if self._tracks_gradients(vec, omega_n):
+                result.index_add_(dim_to_act, self.inds, omega_n * vec)
+            else:
+                result.index_add_(dim_to_act, self.inds, vec, alpha=omega_n)
 
     def _apply_sigma_operators_complex(
         self, result: torch.Tensor, vec: torch.Tensor
@@ -116,6 +133,16 @@ class RydbergHamiltonian:
             shape_n = (2**n, 2, 2 ** (self.nqubits - n - 1))
             vec = vec.view(shape_n)
             result = result.view(shape_n)
+            if self._tracks_gradients(vec, c_omega_n):
+                result.index_add_(
+                    dim_to_act, self.inds[0], c_omega_n * vec[:, 0, :].unsqueeze(1)
+                )
+                result.index_add_(
+                    dim_to_act,
+                    self.inds[1],
+                    c_omega_n.conj() * vec[:, 1, :].unsqueeze(1),
+                )
+                continue
             result.index_add_(
                 dim_to_act, self.inds[0], vec[:, 0, :].unsqueeze(1), alpha=c_omega_n
             )
